@@ -9,10 +9,13 @@ import (
 	"runtime"
 	"strings"
 	"sync"
+	"sync/atomic"
 	"testing"
 	"time"
 
 	"github.com/libp2p/go-libp2p/core/crypto"
+	cryptopb "github.com/libp2p/go-libp2p/core/crypto/pb"
+	"google.golang.org/protobuf/proto"
 
 	"berty.tech/weshnet/v2/internal/verifkit"
 	"berty.tech/weshnet/v2/pkg/protocoltypes"
@@ -207,6 +210,18 @@ func TestVerifC11(t *testing.T) {
 		{"empty-account", nil, goodB}, {"empty-proof", goodA, nil}, {"both-empty", nil, nil},
 		{"garbage-account", randBytes(rng, 68), goodB}, {"garbage-proof", goodA, randBytes(rng, 68)},
 	}
+	// the same key twice in two different valid encodings (libp2p still accepts the legacy 96-byte Ed25519 private key
+	// "seed | public | public" next to the 64-byte one): equal keys, unequal blobs
+	if skA, err := crypto.UnmarshalPrivateKey(goodA); err == nil {
+		if raw, err := skA.Raw(); err == nil && len(raw) == 64 {
+			legacy := append(append([]byte(nil), raw...), raw[32:]...)
+			if lb, err := proto.Marshal(&cryptopb.PrivateKey{Type: cryptopb.KeyType_Ed25519.Enum(), Data: legacy}); err == nil {
+				if sk2, err := crypto.UnmarshalPrivateKey(lb); err == nil && sk2.Equals(skA) {
+					refusals = append(refusals, refusal{"equal-keys/other-encoding-proof", goodA, lb}, refusal{"equal-keys/other-encoding-account", lb, goodA})
+				}
+			}
+		}
+	}
 	for cut := 1; cut < len(goodA); cut += 7 {
 		refusals = append(refusals, refusal{fmt.Sprintf("truncated-account/%d", cut), goodA[:cut], goodB})
 		refusals = append(refusals, refusal{fmt.Sprintf("truncated-proof/%d", cut), goodA, goodB[:cut]})
@@ -372,6 +387,71 @@ func TestVerifC11(t *testing.T) {
 		}
 		if !bad {
 			rep.Count("concurrent_first_uses_consistent", 1)
+		}
+	}
+	// transient read failures: on a store instance freshly opened on the datastore of an existing account, the k-th datastore
+	// read of a round of identity-reading calls fails once, for EVERY k; whatever the calls return while the fault lasts,
+	// the identity read afterwards (also after another restart) must be the one the account had before
+	{
+		injected := fmt.Errorf("verif: injected datastore read error")
+		base := newVStore("TF", 2, 2)
+		peer := newVStore("TFP", 2, 2)
+		g, _, _ := protocoltypes.NewGroupMultiMember()
+		cg0, err0 := base.ss.GetGroupForContact(peer.accountPK())
+		md0, err1 := base.ss.GetOwnMemberDeviceForGroup(g)
+		id0 := identityOf(base)
+		calls := func(v *vStore) {
+			_, _, _ = v.ss.GetGroupForAccount()
+			_, _ = v.ss.GetAccountProofPublicKey()
+			_, _ = v.ss.GetGroupForContact(peer.accountPK())
+			_, _ = v.ss.GetOwnMemberDeviceForGroup(g)
+			_, _, _ = v.ss.ExportAccountKeysForBackup()
+		}
+		isRead := func(op string) bool { return op == "get" || op == "has" }
+		probe := newVStoreOn("probe", base.ds.Clone(), 2, 2)
+		var reads atomic.Int64
+		probe.ds.FailOn = func(op, key string) error {
+			if isRead(op) {
+				reads.Add(1)
+			}
+			return nil
+		}
+		calls(probe)
+		total := reads.Load()
+		if err0 != nil || err1 != nil || total == 0 {
+			rep.Inconclusivef("read-failure stage could not be prepared (reads=%d)", total)
+		}
+		for k := int64(1); k <= total; k++ {
+			st := newVStoreOn("tf", base.ds.Clone(), 2, 2)
+			var c atomic.Int64
+			st.ds.FailOn = func(op, key string) error {
+				if isRead(op) && c.Add(1) == k {
+					return injected
+				}
+				return nil
+			}
+			rep.Case(fmt.Sprintf("read-failure/%d-of-%d", k, total))
+			if pnc, stack := verifkit.Try(func() { calls(st) }); pnc != nil {
+				rep.Violate("C11/panic/read-failure", fmt.Sprintf("%v", pnc), map[string]interface{}{"failing_read": k, "stack": stack})
+				continue
+			}
+			st.ds.FailOn = nil
+			for _, v := range []*vStore{st, st.clone()} {
+				bad := ""
+				if id := identityOf(v); id != id0 {
+					bad = "the account keys changed"
+				} else if cg, err := v.ss.GetGroupForContact(peer.accountPK()); err != nil || fpOf(cg) != fpOf(cg0) {
+					bad = "the contact group changed"
+				} else if md, err := v.ss.GetOwnMemberDeviceForGroup(g); err != nil || !md.Member().Equals(md0.Member()) || !md.Device().Equals(md0.Device()) {
+					bad = "the member/device keys of a group changed"
+				}
+				if bad != "" {
+					rep.Violate("C11/identity-changed-by-read-failure", "after ONE failed datastore read during identity-reading calls "+bad+": the device no longer derives what its account's other devices and its contacts derive",
+						map[string]interface{}{"failing_read": k, "reads_in_round": total})
+					break
+				}
+			}
+			rep.Count("read_failures_survived", 1)
 		}
 	}
 	// swapped blobs: outside the statement; self-consistency only
